@@ -118,7 +118,11 @@ def checkFrame (fs : FrameStep) : Option String :=
   let f : Fr := match fs.frame with | some fr => absFrame s fr | none => .ext
   let c := absCtx s sid fs.frame
   let (r, p1) := StreamSM.react p f c
-  let full := fullReaction fs.after.out sid
+  -- a frame (a WINDOW_UPDATE, say) may let buffered response data go out; when the body's reader then fails the response
+  -- is cut short with RST_STREAM(INTERNAL_ERROR): that is the response ending (`respEnd` below), not a reaction to the frame
+  let sentData := fs.after.out.any fun o => match o with | .data d _ _ _ => d == sid | _ => false
+  let full := if sentData && outRst fs.after.out sid == some Gen.c_InternalError && (outHasGoAway fs.after.out).isNone
+              then (if outDispatch fs.after.out sid then "dispatch" else "ok") else fullReaction fs.after.out sid
   -- the hypotheses of the C08 theorems: the place is one the simulation relation knows, with an RFC state
   -- that agrees with the context about the open header block
   -- (a run of the theorems ends with the first connection error: not checked once a GOAWAY is out)
